@@ -14,7 +14,8 @@ ASSUMPTIONS = [
     "lemma L-congruence(D) lifts the discharged callback clause to ellipses() through the re.sub decomposition: unchecked meta-lemma",
 ]
 
-ALPHABET = ["a", " ", ".", '"', "'", "!", ",", "\n", "“", "-", "1", ")"]
+ALPHABET = ["a", " ", ".", '"', "'", "!", ",", "\n", "“", "-", "1", ")", "…"]
+PUNCT = ".,:;?!)-—\"'”’"
 
 
 def canon(s):
@@ -22,13 +23,91 @@ def canon(s):
 
 
 def Drel(a, b):
-    """deleting spaces and mapping the ellipsis character back gives the same string; and outside the neighbourhood of a
-    converted ellipsis nothing changes"""
-    if canon(a) != canon(b):
-        return False
-    if "…" not in b:
-        return a == b
-    return True
+    """b is a with some three-dot runs replaced by the ellipsis character, where only the spaces directly around a
+    replaced run (before it, and after it / after one following punctuation mark) may differ; everything else is
+    identical, in particular a text without a three-dot run is unchanged."""
+    import functools
+    la, lb = len(a), len(b)
+
+    @functools.lru_cache(maxsize=None)
+    def m(i, j):
+        if i == la and j == lb:
+            return True
+        if i < la and j < lb and a[i] == b[j] and m(i + 1, j + 1):
+            return True
+        # a converted run: a = ' '* '...' p? ' '*   b = ' '* '…' p? ' '*
+        i2 = i
+        while i2 < la and a[i2] == " ":
+            i2 += 1
+        if a[i2:i2 + 3] != "...":
+            return False
+        i2 += 3
+        j2 = j
+        while j2 < lb and b[j2] == " ":
+            j2 += 1
+        if b[j2:j2 + 1] != "…":
+            return False
+        j2 += 1
+        if i2 < la and j2 < lb and a[i2] == b[j2] and a[i2] in PUNCT:
+            if _after(i2 + 1, j2 + 1):
+                return True
+        return _after(i2, j2)
+
+    def _after(i, j):
+        ia = i
+        while True:
+            jb = j
+            while True:
+                if m(ia, jb):
+                    return True
+                if jb < lb and b[jb] == " ":
+                    jb += 1
+                else:
+                    break
+            if ia < la and a[ia] == " ":
+                ia += 1
+            else:
+                return False
+    return m(0, 0)
+
+
+def static_obligations(tier):
+    """ST obligation on the live pattern: the callback contract's precondition 'group 3 is a three-dot run'."""
+    import flowmark.typography.ellipses as E
+    from vfcore import relang
+    groups = relang.top_groups(E.ELLIPSIS_PATTERN)
+    five = [g for g, _ in groups] == [1, 2, 3, 4, 5]
+    lang = relang.finite_language(groups[2][1]) if five else None
+    return [{"oid": "shape/typography.ellipses:ELLIPSIS_PATTERN/five_groups", "status": "discharged" if five else "refuted",
+             "src": "ELLIPSIS_PATTERN is the concatenation of capture groups 1..5 (prefix, spaces, dots, punctuation, spaces)",
+             "detail": str([g for g, _ in groups])},
+            {"oid": "shape/typography.ellipses:ELLIPSIS_PATTERN/dots_group_is_three_dots",
+             "status": "discharged" if lang == {"..."} else ("refuted" if lang is not None else "unknown"),
+             "src": "the language of group 3 of ELLIPSIS_PATTERN is exactly {'...'}: only three-dot runs are touched",
+             "detail": "language of group 3: %r" % (sorted(lang) if lang is not None else None)}]
+
+
+def replay(rec):
+    """failed shape obligation -> search a text on which the real ellipses() leaves relation D"""
+    if "ELLIPSIS_PATTERN" not in rec.get("oid", ""):
+        return None
+    import flowmark.typography.ellipses as E
+    from vfcore import relang
+    groups = relang.top_groups(E.ELLIPSIS_PATTERN)
+    extra = set()
+    for _, sub in groups:
+        l = relang.finite_language(sub)
+        extra |= {w for w in (l or ()) if w and w != "..."}
+    cands = sorted(extra, key=len)[:6]
+    for w in cands:
+        for pre in ("a", "", "a ", '"'):
+            for post in ("b", "", " b", ".", "\n"):
+                s = pre + w + post
+                r = E.ellipses(s)
+                if not Drel(s, r):
+                    return {"reproduced": True, "input": {"text": s}, "got": r,
+                            "expected": "relation D (only three-dot runs and the spaces around them change)"}
+    return {"reproduced": False}
 
 
 def bounded(tier, seed):
@@ -38,12 +117,16 @@ def bounded(tier, seed):
     for n in range(0, maxlen + 1):
         for tup in itertools.product(ALPHABET, repeat=n):
             s = "".join(tup)
-            if "..." not in s:
+            if "..." not in s and "…" not in s:
                 evals += 1
                 continue
             r = ellipses(s)
             evals += 1
-            distinct.add(r)
+            if r != s:
+                distinct.add(r)
+            if "..." not in s and r != s:
+                viol.append({"clause": "only_three_dot_runs", "input": {"text": s}, "got": r, "want": s})
+                continue
             if not Drel(s, r):
                 viol.append({"clause": "D", "input": {"text": s}, "got": r})
             if ellipses(r) != r:
@@ -65,7 +148,7 @@ def bounded(tier, seed):
             pass
     return {"evaluations": evals, "distinct_nontrivial": len(distinct), "violations": viol,
             "samples": [{"text": "a...b"}, {"text": docs[-4]}],
-            "rule": "ellipses() on every string of length <= %d over the 12-symbol alphabet that contains '...': relation D and "
-                    "idempotence of the rewrite; documents of the document space + 4 targeted ones: option on vs off differ only by "
+            "rule": "ellipses() on every string of length <= %d over the 13-symbol alphabet (incl. a pre-existing ellipsis character) that contains '...' or the ellipsis character: relation D "
+                    "(alignment: only three-dot runs become the ellipsis character, only the spaces around them change), texts without a three-dot run unchanged, idempotence of the rewrite; documents of the document space + 4 targeted ones: option on vs off differ only by "
                     "'...' -> '…' and spaces, literal spans identical; distinct = distinct rewritten strings" % maxlen,
             "exhaustive": True, "bound": "strings <= %d symbols" % maxlen}
